@@ -217,6 +217,11 @@ def run(check):
         for b in bad[:10]:
             check.inconclusive.append("translator validation: %s inputs=%s: %s" % b)
     obs = check.obligations(check.K)
+    only = os.environ.get("AUV_ONLY")      # development aid: restricts the run to matching obligations; such a run is marked inconclusive
+    if only:
+        import re
+        obs = [ob for ob in obs if re.search(only, ob.name)]
+        check.inconclusive.append("AUV_ONLY=%s set: development run over %d obligations, not a verdict" % (only, len(obs)))
     # automatic vacuity witnesses: the precondition of every claimed obligation must be satisfiable
     if getattr(check, "auto_witness", True):
         ws = []
